@@ -862,19 +862,49 @@ def run(ctx):
                       {"log": out[-4000:]}, signature="harness", failing_input=False)
         return
     crows.sort(key=lambda r: r["case"])
-    # probes: inputs outside the compared domain, recorded in the evidence, not judged
+    # directed finding case C16-F4: custom record keys >= 2^63 at the three sites where the
+    # SQL store casts the key to int64 (hop record, first-hop wire record of the attempt,
+    # InitPayment's first-hop record).  Judged under ONE signature when the divergence is
+    # exactly "KV accepts, SQL refuses with the key CHECK"; agreement (both accept with the
+    # same answers / both refuse) is fine; anything else is an unexpected divergence.
     probes = [c for c in rows if c["mode"] == "probe"]
     rows = [c for c in rows if c["mode"] != "probe"]
-    ctx.cov["probes(recorded, not judged)"] = {
-        c["probe"]: {be: {"register": ERR[c["steps"][1][be]["e"]],
-                          "message": c["steps"][1][be].get("m", "")[:120]}
-                     for be in ("kv", "sql")} for c in probes}
+    SITES = {1: "hop custom record (RegisterAttempt -> InsertPaymentHopCustomRecord)",
+             4: "attempt first-hop wire custom record (RegisterAttempt -> "
+                "InsertPaymentAttemptFirstHopCustomRecord)",
+             6: "payment first-hop custom record (InitPayment -> "
+                "InsertPaymentFirstHopCustomRecord)"}
     for c in probes:
-        if c["steps"][1]["kv"]["e"] != c["steps"][1]["sql"]["e"]:
-            ctx.note("probe %s: RegisterAttempt KV %s / SQL %s (%s) — backends differ outside "
-                     "the compared domain (notes/C16.md, candidate finding)"
-                     % (c["probe"], ERR[c["steps"][1]["kv"]["e"]],
-                        ERR[c["steps"][1]["sql"]["e"]], c["steps"][1]["sql"].get("m", "")[:80]))
+        sites, refused, odd = {}, [], []
+        for i, name in SITES.items():
+            st = c["steps"][i]
+            a, b = st["kv"], st["sql"]
+            sites[name] = {"op": st["op"], "kv": ERR[a["e"]],
+                           "sql": ERR[b["e"]] + (": " + b.get("m", "")[:140] if b["e"] else "")}
+            if a["e"] == 0 and b["e"] == 1 and "CHECK constraint failed: key" in b.get("m", ""):
+                refused.append(name)
+            elif not (a["e"] == b["e"] and nosk(a["p"]) == nosk(b["p"])):
+                odd.append(name)
+        # the observations after each site must agree unless that site diverged
+        for i, j in ((1, 2), (4, 5), (6, 7)):
+            a, b = c["steps"][j]["kv"], c["steps"][j]["sql"]
+            if SITES[i] not in refused and not (a["e"] == b["e"] and nosk(a["p"]) == nosk(b["p"])):
+                odd.append(SITES[i] + " (following fetch)")
+        ctx.cov["custom_record_key_int64_case"] = sites
+        if refused:
+            ctx.violation("impl_violates_predicate", "C16_backends_differ_refuted",
+                          {"what": "custom record key >= 2^63: KVStore accepts, SQLStore refuses "
+                                   "(key cast to int64, CHECK key >= 65536)",
+                           "sites_diverging": refused, "sites": sites,
+                           "minimal_history": [s["op"] for s in c["steps"][:2]],
+                           "custom_record": {"key": 2 ** 63 + 5, "value": "01"}},
+                          signature="C16 kvsql:custom-record-key-int64")
+        if odd:
+            ctx.violation("impl_violates_predicate", "C16_refinement_partial",
+                          {"what": "custom record key >= 2^63: backends differ other than by "
+                                   "the known SQL refusal", "sites": sites, "odd": odd,
+                           "history": [s["op"] for s in c["steps"]]},
+                          signature="C16 kvsql-unexpected:custom-record-key " + odd[0])
 
     # ---- property predicate on the implementation's own answers
     nviol = 0
